@@ -177,7 +177,13 @@ def cases(rng, tier):
     # cooling start exactly at T_eq in a tall vial: nodes that never moved sit exactly at T_m, the mask-multiplied
     # terms of the code give inf*0 = NaN there and the run ends in "Solidification is not completed"; the model
     # mirrors the multiplication (same exception class expected; nothing is reported, so no clause is evaluated)
-    yield u._base("shelf", 0.05, 0.1, 400, 5500, start=0.0, stop=-60, rate=0.5)
+    yield dict(u._base("shelf", 0.05, 0.1, 400, 5500, start=0.0, stop=-60, rate=0.5), expect_raise="ValueError")
+    # homogeneous (0D) model: bounds, ice clauses, no ice before the reported nucleation time
+    yield u._base("shelf", 0.01, 0.01, 200, 1500, dim="homogeneous", start=20, stop=-50, rate=0.5)
+    yield u._base("shelf", 0.02, 0.02, 400, 2500, dim="homogeneous", start=5, stop=-40, rate=0.2, holds=[[-5, 60]])
+    if tier != "quick":
+        yield u._base("shelf", 0.01, 0.01, 50, 6000, dim="homogeneous", start=20, stop=-50, rate=0.05,
+                      solution={"T_eq": -1.0})
     # object histories: run, then `S.opcond` replaced / edited, run again -- bounds against the CURRENT programme
     b1 = u._base("shelf", 0.01, 0.04, 1000, 200, dim="spatial_1D")
     b2 = u._base("shelf", 0.01, 0.04, 1000, 200)
@@ -192,7 +198,13 @@ def cases(rng, tier):
                    programs=[dict(start=0.5, stop=-70, t_tot=400)])
 
 
+def _own(case):
+    return {k: v for k, v in case.items() if k not in ("expect_raise",)}
+
+
 def run_impl(case):
+    if case.get("kind") != "history" and case.get("expect_raise"):
+        return u.observe(_own(case))
     if case.get("kind") == "history":
         base = {k: v for k, v in case.items() if k not in ("kind", "programs", "_corpus")}
         res, last = u.run_history(base, case["programs"])
@@ -201,9 +213,7 @@ def run_impl(case):
         n = len(res["time"])
         has = np.nonzero(res["ice"].reshape(n, -1).max(axis=1) > 0)[0]
         # the nucleation row of THIS run: the reported time equals t_nuc (stats, minutes)
-        t_nuc = float(res["S"]._stats["t_nuc"]) * 60
-        tm = res["time"] * 3600
-        inuc = int(np.argmax(tm >= t_nuc - 1e-9)) + 1 if (tm >= t_nuc - 1e-9).any() else n
+        inuc = u.nuc_row(dict(res, stats=[None, None, None, None, float(res["S"]._stats["t_nuc"])]))
         return {"raise": None, "n": n, "bounds": u._bounds_summary(last, res, min(inuc, n)), "history": True,
                 "first_ice_row": int(has[0]) if len(has) else None, "inuc": inuc, "last": last}
     return u.observe(case)
@@ -212,7 +222,7 @@ def run_impl(case):
 def run_model(drv, case):
     if case.get("kind") == "history" or case["dim"] != "spatial_2D":
         return {"skip": True}
-    return u.run_model(drv, case)
+    return u.run_model(drv, _own(case))
 
 
 def compare(case, impl, model):
@@ -228,66 +238,87 @@ def in_stab(case):
     if sol:
         sf = sol.get("solid_fraction", 0.05)
         k0 = sf * sol.get("lambda_s", 0.126) + (1 - sf) * 0.598
+    if case["dim"] == "homogeneous":
+        # 0D: dt*A*K <= cp*m, i.e. 0.1*K <= cp*rho*height
+        return bool(0.1 * case["K_shelf"] <= 4000.0 * 1000.0 * case["height"])
     dz = case["height"] / 30
     ok = case["K_shelf"] * dz / k0 <= 1
     if case["config"] == "jacket" and case["dim"] == "spatial_2D":
         j = case.get("jacket") or dict(air_gap=1e-3, lambda_air=0.025)
         Kw = 1 / (1 / case["K_shelf"] + j["air_gap"] / j["lambda_air"])
-        s = dz if u.source_flags()["jacketDz"] else (case["diameter"] / 2) / 15
+        s = (case["diameter"] / 2) / 15
         ok = ok and Kw * s / k0 <= 1
     return bool(ok)
 
 
+def _site(case):
+    return {"spatial_2D": "_run_2D", "spatial_1D": "_run_1D", "homogeneous": "_run_0D"}[case["dim"]]
+
+
 def predicates(case, impl):
     out = []
-    if impl.get("raise") or not impl.get("bounds"):
-        return out
+    if impl.get("raise"):
+        # expected raises are decided by a rule on the CASE, never by echoing the implementation: the only one in
+        # this stream is the start == T_eq tall-vial case (nodes exactly at T_m -> inf*0 = NaN -> "Solidification is
+        # not completed"; the 2D model, which mirrors the multiplied masks, must raise the same class -> compare)
+        if case.get("expect_raise") and impl["raise"] == case["expect_raise"]:
+            return out
+        site = _site(impl.get("last") or case) + ("@history" if case.get("kind") == "history" else "")
+        return [Failure(clause="total", key=f"raises|{site}|{impl['raise']}",
+                        detail=f"the run raises {impl['raise']} ({impl.get('stage')}) on a process that is long enough "
+                               f"to nucleate and solidify")]
+    if not impl.get("bounds"):
+        return [Failure(clause="observation", key=f"observation_broken|{_site(case)}|no-bounds",
+                        detail="the run returned but no bounds could be evaluated")]
     if impl.get("history"):
         case = impl["last"]
+    site = _site(case)
+    cfg = case["config"]
     if impl["bounds"].get("finite") is False:
         # not a question of the stability range: whatever is reported must be finite
         nf = impl.get("nonfinite") or {}
-        site = "_run_2D" if case["dim"] == "spatial_2D" else "_run_1D"
-        return [Failure(clause="finite", key=f"finite|{site}|{case['config']}",
+        return [Failure(clause="finite", key=f"finite|{site}|{cfg}",
                         detail=f"{nf.get('count')} reported temperatures / ice fractions are not finite (first reported "
                                f"row {nf.get('first_row')})")]
-    if not in_stab(case):
-        return out
     b = impl["bounds"]
-    site = "_run_2D" if case["dim"] == "spatial_2D" else "_run_1D"
-    cfg = case["config"]
     tol = 1e-9 * 300
 
     def fail(clause, detail):
         out.append(Failure(clause=clause, key=f"{clause}|{site}|{cfg}", detail=detail))
 
+    # clauses that need no stability hypothesis
     if not b["finite"]:
         fail("finite", "a reported temperature or ice fraction is not finite")
-    if b["upper_excess"] > tol:
-        fail("upper_bound", f"reported temperature exceeds max(T_0, T_eq_l) by {b['upper_excess']:.3e} K at row "
-                            f"{b['upper_row']}")
-    if cfg != "VISF" and b["lower_deficit"] > tol:
-        fail("lower_bound", f"reported temperature is {b['lower_deficit']:.3e} K below the coldest shelf temperature "
-                            f"applied so far at row {b['lower_row']}")
     if b["ice_min"] < -1e-12:
         fail("ice_range", f"negative ice mass fraction {b['ice_min']:.3e}")
     if b["ice_max_excess"] > 1e-12:
         fail("ice_range", f"ice mass fraction exceeds the water mass fraction by {b['ice_max_excess']:.3e}")
     if b["ice_before_nuc"] > 0:
-        fail("no_ice_before_nucleation", f"ice fraction {b['ice_before_nuc']:.3e} reported before nucleation")
+        fail("no_ice_before_nucleation", f"ice fraction {b['ice_before_nuc']:.3e} reported in a row before the reported "
+                                         f"nucleation time")
     if b["ice_at_warm_nodes"] > 0:
         fail("ice_iff_supercooled", f"{b['ice_at_warm_nodes']} reported nodes warmer than T_eq_l carry ice")
     if b["liquidus_residual"] > 1e-9:
         fail("liquidus_relation", f"ice fraction and temperature off the liquidus by {b['liquidus_residual']:.3e}")
+    # the maximum-principle bounds are claimed inside the stability range only (Biot numbers <= 1)
+    if in_stab(case):
+        if b["upper_excess"] > tol:
+            fail("upper_bound", f"reported temperature exceeds max(T_0, T_eq_l) by {b['upper_excess']:.3e} K at row "
+                                f"{b['upper_row']}")
+        if cfg != "VISF" and b["lower_deficit"] > tol:
+            fail("lower_bound", f"reported temperature is {b['lower_deficit']:.3e} K below the coldest shelf temperature "
+                                f"applied so far at row {b['lower_row']}")
     return out
 
 
 def classify(case, impl):
-    if case.get("start") == 0.0 and not case.get("kind"):
+    if case.get("expect_raise"):
         return ["start==T_eq", "raise=" + str(impl.get("raise"))]
     if case.get("kind") == "history":
         return ["kind=history", f"dim={case['dim']}"] + (["raise=" + impl["raise"]] if impl.get("raise") else [])
     tags = [f"dim={case['dim']}", f"config={case['config']}", "in-Stab" if in_stab(case) else "outside-Stab(Biot)"]
+    if case["dim"] == "homogeneous":
+        return tags + (["raise=" + impl["raise"]] if impl.get("raise") else [])
     if impl.get("raise"):
         tags.append("raise=" + impl["raise"])
     return tags
